@@ -19,3 +19,4 @@ def run(col, configs, tier):
         guarded(col, I.rule_steps, facts)
         guarded(col, I.rule_sizes, facts)
         guarded(col, X.rule_step_helper_agreement, facts)
+        guarded(col, X.rule_jeaiii, facts)
